@@ -38,7 +38,7 @@ def op_strategy(focus, pool):
         T(J('insert'), own, ti, st.integers(-1, 4), flag_any),
         T(J('remove'), own, ti, flag_any),
         T(J('move'), own, st.lists(ti, min_size=1, max_size=2), opt, opt, flag_any),
-        T(J('sort'), own, st.sampled_from(['id', 'name', 'rank', 'zzz', ('name', 'id')]), st.booleans(), J('')),
+        T(J('sort'), own, st.sampled_from(['id', 'name', 'rank', 'name', 'rank', 'zzz', ('name', 'id')]), st.booleans(), J('')),
         T(J('reorder'), own, idl, J('')),
         T(J('remove_all'), own, idl, J('')),
         T(J('floordiv'), own, seq, flag_any),
@@ -168,11 +168,14 @@ SHAPES = {
     'detached-chain-linked-leaf': [('append', 0, 1, ''), ('append', 1, 2, ''), ('pred_append', 2, 3, '')],
     'linked-grandchild': [('append', 0, 3, ''), ('append', 1, 2, ''), ('succ_append', 2, 0, '')],
     'wbs-with-two-branches': [('append', -1, 0, ''), ('append', 0, 2, ''), ('append', -1, 1, '')],
+    'flat-roots-with-name-ties': [('append', -1, 3, ''), ('append', -1, 1, ''), ('append', -1, 0, ''), ('append', -1, 2, '')],
+    'children-with-name-ties': [('append', 1, 0, ''), ('append', 1, 2, ''), ('append', 1, 3, '')],
 }
 
 
 # shapes whose point is a link / hierarchy conflict use pairwise distinct ids (no id clash masks the conflict)
-SHAPE_IDS = {'detached-chain-linked-leaf': [1, 2, 3, 4], 'linked-grandchild': [1, 2, 3, 4]}
+SHAPE_IDS = {'detached-chain-linked-leaf': [1, 2, 3, 4], 'linked-grandchild': [1, 2, 3, 4],
+             'flat-roots-with-name-ties': [1, 2, 3, 4], 'children-with-name-ties': [1, 2, 3, 4]}
 
 
 def small_alphabet(reduced=True):
@@ -263,6 +266,8 @@ def tiny_alphabet():
 def small_histories(length, reduced=True, tiny=False):
     alpha = tiny_alphabet() if tiny else small_alphabet(reduced)
     for name, shape in SHAPES.items():
+        if tiny and name in ('flat-roots-with-name-ties', 'children-with-name-ties', 'linked-pair'):
+            continue        # the sort / link shapes add nothing to the hierarchy-only 2-step enumeration
         for combo in itertools.product(alpha, repeat=length):
             yield {'ids': SHAPE_IDS.get(name, SMALL_IDS), 'nw': SMALL_NW, 'shape': name,
                    'ops': [list(o) for o in shape] + [list(o) for o in combo]}
